@@ -26,6 +26,12 @@ def run(tier, only=None):
             jobs.append(Job('c10.E.%s.req%d' % ('-'.join(map(str, v)) or 'none', req), SA.c10_extent(list(v), req),
                             SRC, unwind=70, timeout=600, object_bits=12,
                             meta={'lengths': list(v), 'requested_count': req, 'layout': 'exact extent'}))
+    # lengths around the 8-bit boundary of byte counters (total > 255) - cheap, concrete sizes
+    for v in ([(254,), (255, 1)] if tier == 'quick' else [(253,), (254,), (300,), (128, 128), (255, 1), (100, 100, 100)]):
+        for req in (len(v), len(v) + 2):
+            jobs.append(Job('c10.E.%s.req%d' % ('-'.join(map(str, v)), req), SA.c10_extent(list(v), req), SRC,
+                            unwind=max(70, sum(v) + 2 * len(v) + 24), timeout=900, object_bits=12, backend='kissat',
+                            meta={'lengths': list(v), 'requested_count': req, 'layout': 'exact extent'}))
     jobs.append(Job('c10.count300', SA.c10_count_many(300), SRC, unwind=620, timeout=600,
                     meta={'strings': 300, 'string_length': 0}))
     chk.run(jobs)
